@@ -25,4 +25,5 @@ monitor = ep.monitor_for(ID)
 features = ep.features
 alarm_filter = ep.alarm_filter
 nontrivial = ep.nontrivial
+
 valid_case = ep.valid_case
